@@ -287,6 +287,45 @@ def cn(src):
     return norm(b.value) if isinstance(b, ast.Expr) else norm(b)
 
 
+def through_nonempty_guards(body, name):
+    """statements of `body`, with `if <index array `name` is non-empty>: X` (canonical form of `if empty: continue`) replaced by X:
+    doing nothing for an empty index array is what the unguarded vectorised statements do anyway"""
+    tests = {t % {'n': name} for t in ('not %(n)s.size == 0', '%(n)s.size != 0', '%(n)s.size', 'len(%(n)s)', '0 < len(%(n)s)', '0 < %(n)s.size',
+                                       'not len(%(n)s) == 0', 'len(%(n)s) != 0', '1 <= len(%(n)s)', '1 <= %(n)s.size')}
+    out = []
+    for st in body:
+        if isinstance(st, ast.If) and not st.orelse and norm(st.test) in tests:
+            out.extend(through_nonempty_guards(st.body, name))
+        else:
+            out.append(st)
+    return out
+
+
+def loop_exits(lp):
+    """statements that leave the loop `lp` before its iterable is exhausted: its own `break`s and any `return` inside it"""
+    out = []
+
+    def walk(stmts, own):
+        for st in stmts:
+            if isinstance(st, ast.Break):
+                if own:
+                    out.append(st)
+            elif isinstance(st, ast.Return):
+                out.append(st)
+            elif isinstance(st, (ast.For, ast.While)):
+                walk(st.body, False)
+                walk(st.orelse, own)
+            elif isinstance(st, (ast.FunctionDef, ast.AsyncFunctionDef, ast.ClassDef)):
+                continue
+            else:
+                for fld in ('body', 'orelse', 'finalbody'):
+                    walk(getattr(st, fld, []) or [], own)
+                for h in getattr(st, 'handlers', []) or []:
+                    walk(h.body, own)
+    walk(lp.body, True)
+    return out
+
+
 def where_unpack(s):
     """(target, condition) of `T, = np.where(C)` in its canonical spelling `T = np.flatnonzero(C)` (also the literal unpacking form), else None"""
     if not (isinstance(s, ast.Assign) and len(s.targets) == 1 and isinstance(s.value, ast.Call) and len(s.value.args) == 1 and not s.value.keywords):
